@@ -410,6 +410,7 @@ func runFaultSuite(rep *Report, tier string, seed int64, prop string) {
 			for _, cause := range []string{"cancel", "transport"} {
 				c03ClosureRunningAtLinkEnd(rep, prop, api, cause)
 			}
+			nestedCallAtLinkDeadline(rep, prop, api)
 		}
 		n := 150
 		if tier == "thorough" {
